@@ -7,6 +7,7 @@
 //	{"op":"langs"}                           -> {"langs":[[lang,[opt..sorted]]..sorted]}
 //	{"op":"types","dir":D,"files":{name:text},"main":name}
 //	     -> {"code":..,"tree":file,"queries":[..],"parse_ok":bool,"parse_err":..,"agree":bool}
+//	{"op":"validate",...}                    -> see validate.go
 //
 // The helpers are the real ones (reached through compiler/**/verif_c11.go, build tag verif).
 package main
@@ -202,8 +203,10 @@ func langs() resp {
 }
 
 func main() {
-	if err := hx.Serve(func(q req) resp {
+	if err := hx.Serve(func(q req) interface{} {
 		switch q.Op {
+		case "validate":
+			return validateOp(q)
 		case "casing":
 			return casing(q)
 		case "gen":
